@@ -140,6 +140,16 @@ let dispatch (cmd : string) (t : tree) : tree =
       let tr = r_list (fun t -> match as_list t with [c; y; z] -> (r_qs c, (r_qs y, r_qs z)) | _ -> failwith "trace entry") tr in
       let ret = match as_list ret with [] -> None | [y; z] -> Some (r_qs y, r_qs z) | _ -> failwith "ret" in
       w_bool (QcRun.q_trace_ok (r_q tol) (r_nat maxit) Datatypes.O (Some (r_qs c0)) tr ret)
+  | "sys_topo", [comps; exo; order] ->
+      (* comps: [id, inputs, outputs]; order: list of ids in the observed evaluation order *)
+      let mk t = match as_list t with
+        | [i; ins; outs] -> { Sys.cid = r_nat i; Sys.cin = r_list r_nat ins; Sys.cout = r_list r_nat outs;
+                              Sys.cmodel = (fun (x : unit list) -> x); Sys.csurr = (fun x -> x); Sys.use_model = true }
+        | _ -> failwith "comp" in
+      let cs = r_list mk comps in
+      let ids = r_list r_int order in
+      let find i = try SL.find (fun c -> int_of_nat c.Sys.cid = i) cs with Not_found -> failwith "unknown component id" in
+      w_bool (Sys.is_topological cs (r_list r_nat exo) (SL.map find ids))
   | "shape_loop", [shapes] -> w_list w_nat (Shape.loop_shape (r_list r_shape shapes))
   | "shape_fmt_input", [l; s; data] -> w_list (w_list w_z) (Shape.fmt_input (r_shape l) (r_shape s) (r_list r_z data))
   | "shape_out", [l; o] -> w_list w_nat (Shape.fmt_output_shape (r_shape l) (r_shape o))
